@@ -92,13 +92,20 @@ def execute(ctx, case):
     factory.startConnecting()
     conn = sim.connectors[-1]
     conn.sim_connected()
-    for name, ts, val in case['points']:
-      factory.sendDatapoint(name, (ts, val))
-    sim.settle(horizon=1.0)
-    for _ in range(len(case['points']) * 4 + 10):
-      if not conn.transport.drain():      # the peer reads, the transport lets the producer go on
-        break
+    try:
+      for name, ts, val in case['points']:
+        factory.sendDatapoint(name, (ts, val))
       sim.settle(horizon=1.0)
+      for _ in range(len(case['points']) * 4 + 10):
+        if not conn.transport.drain():      # the peer reads, the transport lets the producer go on
+          break
+        sim.settle(horizon=1.0)
+    except HarnessError:
+      raise
+    except Exception as e:  # noqa
+      ctx.fail('C15:client-raised:%s' % type(e).__name__, '%s client protocol raised %r while sending (datapoints popped from '
+               'the queue for that message are gone)' % (proto, e), case, 'no-drop')
+      return
     if factory.queue:
       ctx.fail('C15:queue-not-transmitted', 'connected, timers settled, %d datapoints still queued' % len(factory.queue), case)
       return
